@@ -49,6 +49,11 @@ class InjectedFailure(Exception):
     """Injected fault: the user's posterior raised (a domain error, an interrupt) in the middle of an operation."""
 
 
+class InjectedInterrupt(KeyboardInterrupt):
+    """Injected fault: the user interrupts a long operation (Ctrl-C arrives while the posterior is being evaluated);
+    not an `Exception`, so `except Exception` clean-up code in the library does not see it."""
+
+
 class StepExhausted(Exception):
     """HamiltonianChain's documented 'failed to take step' error: legitimate end of a history."""
 
